@@ -554,6 +554,19 @@ where
 fn falsify(seed: u64, budget: usize) {
     let mut r = Rng::new(seed);
     let mut st = Stats::default();
+    // boundary stream: every (declared degree, exemptions) pair on short traces, with and without a periodic factor / aux segment
+    // (the number of composition columns and the ce blowup are functions of exactly these)
+    for d in 1..=5u32 { for ex in 1..=5usize { for variant in 0..4u32 { for log_n in [3u32, 4] {
+        let blowup = 8usize;
+        let mut s = Spec::simple(1 + (variant as usize % 2), log_n, d, 1000 + (d as u64) * 100 + ex as u64 * 10 + variant as u64);
+        s.exemptions = ex;
+        if variant >= 2 { s.periodic = vec![1usize << log_n]; s.use_per = vec![true; s.width]; }
+        if variant == 1 { s.aux_width = 1; s.aux_rands = 1; }
+        s.assertions = vec![AKind::Single { col: 0, step: 0 }];
+        if (d + (variant >= 2) as u32) as usize > blowup { continue; }
+        if variant % 2 == 0 { direct_case::<f64::BaseElement, f64::BaseElement>(&s, blowup, FieldExtension::None, "f64", &mut r, &mut st); }
+        else { proof_case::<f64::BaseElement, QuadExtension<f64::BaseElement>>(&s, blowup, FieldExtension::Quadratic, "f64", &mut r, &mut st); }
+    } } } }
     let mut i = 0usize;
     while (st.evals as usize) < budget && i < budget * 4 + 64 {
         i += 1;
